@@ -7,7 +7,7 @@
    by tokio and reported as JoinErrors by at_sim_end; they do not deactivate the module.
    Unwinding itself (that catch_unwind leaves tokio's and Rust's state intact) is not modelled. *)
 From Coq Require Import List NArith Bool.
-From DesVerif Require Import Life.Model Life.Base Life.Step Life.Trace Life.Frame Life.Inert Life.Events Life.Panic Life.Silent.
+From DesVerif Require Import Life.Model Life.Base Life.Step Life.Trace Life.Frame Life.Inert Life.Events Life.Panic Life.Silent Life.Term.
 Import ListNotations.
 Open Scope N_scope.
 
@@ -48,7 +48,7 @@ Print Assumptions C13_globals_released.
    return normally, request shutdown() unless a request is already pending, and the tasks polled in
    that event end at once.  [events_of] drops the tear-down records; [others m] keeps, in order, every
    record of every module other than m (callbacks with their time stamps, task steps, sends, logs,
-   requests, resets).  If both runs complete, these are the same in the two runs: no other module
+   requests, resets).  These are the same in the two runs: no other module
    can tell whether m panicked or merely fell silent -- whichever callbacks of m panic, however
    often (m may have requested a restart before panicking and panic again later), and whatever m's
    left-over wake-ups do to the event set.
@@ -57,12 +57,10 @@ Print Assumptions C13_globals_released.
    modules with several start-up stages: SimLifecycle::at_sim_start still calls the later stages of a
    module whose stage 0 panicked, which polls the tasks spawned before the panic; such a task can
    request a restart and send, so that other modules receive messages they would not have received
-   (witness: corpus/C13/multistage_panic.txt, proposed patch fixes/F15.diff).  The completion
-   hypotheses are about the model's fuel. *)
+   (witness: corpus/C13/multistage_panic.txt, proposed patch fixes/F15.diff). *)
 Theorem C13_others_as_if_silent_partial : forall sc m, c_stages (cfg sc m) = 1 ->
-  r_ok (run_script sc) = true -> r_ok (run_script (quieten m sc)) = true ->
   others m (items (events_of (trace sc))) = others m (items (events_of (trace (quieten m sc)))).
-Proof. exact others_as_if_silent. Qed.
+Proof. intros sc m H. apply (others_as_if_silent sc m H); apply run_terminates. Qed.
 Print Assumptions C13_others_as_if_silent_partial.
 
 (* Non-vacuity.  Module 0 panics in handle_message at t = 2 (its task would have logged 7 at
